@@ -162,6 +162,7 @@ struct Swarm {
     odd_spellings: bool,
     colliding_names: bool,
     stdgates: bool,
+    misc: bool,
 }
 
 struct LogicalFile {
@@ -377,7 +378,7 @@ impl<'a> G<'a> {
         wt[18] = 2; // measure
         wt[19] = 2; // reset / barrier
         wt[20] = if !global && self.sw.nested_includes { 3 } else { 0 }; // include below global scope
-        wt[21] = if global && self.sw.semantic_errors > 0 { 0 } else { 0 };
+        wt[21] = if self.sw.misc { 8 } else { 0 }; // assorted further statement kinds
         wt[22] = if !global && self.sw.semantic_errors > 0 { 1 } else { 0 }; // qubit decl in local scope
         wt[23] = 1; // uint/angle decl
         match self.r.weighted(&wt) {
@@ -710,6 +711,7 @@ impl<'a> G<'a> {
                 self.nested_include(w, file);
                 1
             }
+            21 => self.misc_stmt(w, depth, global, file),
             22 => {
                 let n = self.fresh("lq");
                 w.push(&format!("qubit {};", n));
@@ -731,6 +733,167 @@ impl<'a> G<'a> {
                 1
             }
         }
+    }
+
+    /// Further statement kinds, each probed to be analysed without panic on the pinned tree
+    /// (also when redeclared). All yield exactly one graph statement at top level.
+    fn misc_stmt(&mut self, w: &mut Tw, depth: usize, global: bool, file: usize) -> usize {
+        let in_loop = depth > 0;
+        match self.r.below(22) {
+            0 => {
+                // gate modifier on a call
+                let mut t = Tw::default();
+                if !self.qubit_operand(&mut t) {
+                    w.push("end;");
+                    return 1;
+                }
+                let m = self.r.pick_str(&["inv @ ", "pow(2) @ ", "inv @ pow(3) @ "]);
+                w.push(&format!("{}U(0.5, 0, 0) {};", m, t.s));
+            }
+            1 if global => {
+                let n = self.var_name("inp");
+                let ty = self.r.pick_str(&["int[32]", "float[64]", "bit[2]", "bool"]);
+                w.push(&format!("input {} {};", ty, n));
+                self.sc.ints.push(n);
+            }
+            2 if global => {
+                let n = self.var_name("outp");
+                w.push(&format!("output bit[2] {};", n));
+            }
+            3 => {
+                let n = self.var_name("d");
+                if self.safe || self.collided {
+                    w.push(&format!("stretch {};", n));
+                } else {
+                    w.push(&format!("duration {} = 10ns;", n));
+                }
+            }
+            4 => {
+                let mut t = Tw::default();
+                if !self.qubit_operand(&mut t) {
+                    w.push("end;");
+                    return 1;
+                }
+                let d = if self.wrong() { "5" } else { self.r.pick_str(&["10ns", "2us", "1dt"]) };
+                w.push(&format!("delay[{}] {};", d, t.s));
+            }
+            5 if depth < 3 && self.sw.control_flow => {
+                w.push("switch (");
+                self.int_operand(w);
+                w.push(") { case 1 {");
+                self.block(w, depth, file);
+                w.push("} case 2, 3 {");
+                self.block(w, depth, file);
+                w.push("}");
+                if self.r.chance(1, 2) {
+                    w.push(" default {");
+                    self.block(w, depth, file);
+                    w.push("}");
+                }
+                w.push(" }");
+            }
+            6 if depth < 3 && self.sw.control_flow => {
+                let v = self.fresh("k");
+                w.push(&format!("for int[32] {} in {{1, 2, 5}} {{", v));
+                let m = self.sc.mark();
+                self.sc.ints.push(v);
+                self.block_inner(w, depth, file);
+                if self.r.chance(1, 3) {
+                    w.push(self.r.pick_str(&["break; ", "continue; "]));
+                }
+                self.sc.reset(m);
+                w.push("}");
+            }
+            7 if in_loop => w.push(self.r.pick_str(&["break;", "continue;"])),
+            8 => w.push("end;"),
+            9 => {
+                let n = self.var_name("z");
+                w.push(&format!("complex[float[64]] {};", n));
+            }
+            10 => {
+                let q = self.r.pick_str(&["$0", "$1", "$2", "$7"]);
+                match self.r.below(3) {
+                    0 => w.push(&format!("measure {};", q)),
+                    1 => w.push(&format!("reset {};", q)),
+                    _ => w.push(&format!("U(0, 0.5, 0) {};", q)),
+                }
+            }
+            11 => {
+                let n = self.var_name("f");
+                let c = self.r.pick_str(&["pi", "π", "euler", "tau", "τ", "ℇ"]);
+                if self.safe || self.collided {
+                    // the initialiser is constant: keep the declaration free of it
+                    w.push(&format!("float[64] {};", n));
+                } else {
+                    w.push(&format!("float[64] {} = {};", n, c));
+                }
+                self.sc.floats.push(n);
+            }
+            12 => {
+                if self.sc.ints.is_empty() {
+                    w.push("end;");
+                    return 1;
+                }
+                let t = self.r.pick(&self.sc.ints).clone();
+                match self.r.below(3) {
+                    0 => {
+                        w.push(&format!("{} = -", t));
+                        self.int_operand(w);
+                        w.push(";");
+                    }
+                    1 => w.push(&format!("{} = int[32](1.5);", t)),
+                    _ => {
+                        w.push(&format!("{} = int[32](", t));
+                        self.float_lit(w);
+                        w.push(");");
+                    }
+                }
+            }
+            13 if global => {
+                let n = self.fresh("ext");
+                w.push(&format!("extern {}(int[32]) -> int[32];", n));
+            }
+            14 if global => {
+                w.push("defcalgrammar ");
+                w.lexeme("string", self.r.pick_str(&["\"openpulse\"", "'openpulse'"]));
+                w.push(";");
+            }
+            15 if global => {
+                let q = self.r.pick_str(&["$0", "$1"]);
+                w.push(&format!("defcal x {} {{ play(drive({}), gaussian(100, 30, 5)); }}", q, q));
+            }
+            16 => {
+                let n = self.var_name("arr");
+                w.push(&format!("array[int[32], 3] {};", n));
+            }
+            17 if global && self.sw.defs => {
+                let n = self.fresh("mq");
+                w.push(&format!("def {}(qubit qq) -> bit {{ return measure qq; }}", n));
+            }
+            18 if !self.safe && !self.sc.consts.is_empty() => {
+                let c = self.r.pick(&self.sc.consts).clone();
+                let n = self.var_name("wide");
+                if self.collided {
+                    w.push(&format!("bit[{}] {};", c, n));
+                } else {
+                    w.push(&format!("int[{}] {};", c, n));
+                }
+            }
+            19 if global && self.sw.semantic_errors > 0 => {
+                w.push("return 1;");
+            }
+            20 if !global && self.sw.semantic_errors > 0 && self.sw.gates => {
+                let n = self.fresh("lg");
+                w.push(&format!("gate {} a {{ U(0, 0, 0) a; }}", n));
+            }
+            _ => {
+                let n = self.var_name("v");
+                w.push(&format!("int[32] {};", n));
+                self.sc.ints.push(n);
+            }
+        }
+        let _ = global;
+        1
     }
 
     fn cond(&mut self, w: &mut Tw) {
@@ -974,6 +1137,7 @@ fn draw_swarm(r: &mut Rng, profile: Profile) -> Swarm {
         odd_spellings: r.chance(1, 2),
         colliding_names: r.chance(1, 3),
         stdgates: r.chance(1, 2),
+        misc: r.chance(1, 2),
     }
 }
 
